@@ -202,15 +202,16 @@ type fnFacts struct {
 var ctxField ssa.Value = ssa.NewConst(constant.MakeBool(true), types.Typ[types.Bool])
 
 type matrix struct {
-	w       *World
-	facts   map[*ssa.Function]*fnFacts
-	anchors map[*ssa.Function]bool // emitters treated as opaque when called
-	funcs   []*ssa.Function        // generator-reachable subject functions
-	summ    map[summKey]src
-	inprog  map[summKey]bool
-	pdeps   map[paramKey]src
-	pbusy   map[paramKey]bool
-	callers map[*ssa.Function][]ssa.CallInstruction
+	w         *World
+	facts     map[*ssa.Function]*fnFacts
+	anchors   map[*ssa.Function]bool // emitters treated as opaque when called
+	funcs     []*ssa.Function        // generator-reachable subject functions
+	summ      map[summKey]src
+	inprog    map[summKey]bool
+	emitOuter map[*ssa.Function]int
+	pdeps     map[paramKey]src
+	pbusy     map[paramKey]bool
+	callers   map[*ssa.Function][]ssa.CallInstruction
 }
 
 type summKey struct {
@@ -410,7 +411,7 @@ func newMatrix(w *World) *matrix {
 	for _, fn := range m.funcs {
 		forEachInstr(fn, func(b *ssa.BasicBlock, ins ssa.Instruction) {
 			if c, ok := ins.(ssa.CallInstruction); ok {
-				if g := c.Common().StaticCallee(); g != nil && g != fn {
+				if g := calleeOf(c); g != nil && g != fn {
 					m.callers[g] = append(m.callers[g], c)
 				}
 			}
@@ -443,8 +444,57 @@ func newMatrix(w *World) *matrix {
 		}
 		m.facts[fn] = ff
 	}
+	m.dropForeignFieldParams()
 	m.solve()
 	return m
+}
+
+// dropForeignFieldParams: a *model.Field parameter that every call site binds to the packet's length field (p.LengthField) is not
+// "the field under emission" of the callee - the callee works for the caller's field and inherits its state as a context state.
+func (m *matrix) dropForeignFieldParams() {
+	isLengthFieldLoad := func(v ssa.Value) bool {
+		ld, ok := stripIdentity(v).(*ssa.UnOp)
+		if !ok || ld.Op != token.MUL {
+			return false
+		}
+		fa, ok := ld.X.(*ssa.FieldAddr)
+		if !ok {
+			return false
+		}
+		tn, f, _, _ := fieldOf(fa)
+		return tn == "Packet" && f == "LengthField"
+	}
+	for _, fn := range m.funcs {
+		ff := m.facts[fn]
+		sites := m.callers[fn]
+		if len(sites) == 0 {
+			continue
+		}
+		var keep []ssa.Value
+		for _, f := range ff.fields {
+			p, isParam := f.(*ssa.Parameter)
+			if !isParam {
+				keep = append(keep, f)
+				continue
+			}
+			idx := -1
+			for i, q := range fn.Params {
+				if q == p {
+					idx = i
+				}
+			}
+			foreign := idx >= 0
+			for _, s := range sites {
+				if idx < 0 || idx >= len(s.Common().Args) || !isLengthFieldLoad(s.Common().Args[idx]) {
+					foreign = false
+				}
+			}
+			if !foreign {
+				keep = append(keep, f)
+			}
+		}
+		ff.fields = keep
+	}
 }
 
 // solve: interprocedural fixpoint of the per-field block states.
@@ -454,7 +504,7 @@ func (m *matrix) solve() {
 	for _, fn := range m.funcs {
 		forEachInstr(fn, func(b *ssa.BasicBlock, ins ssa.Instruction) {
 			if c, ok := ins.(ssa.CallInstruction); ok {
-				if g := c.Common().StaticCallee(); g != nil && m.facts[g] != nil && g != fn {
+				if g := calleeOf(c); g != nil && m.facts[g] != nil && g != fn {
 					hasCaller[g] = true
 				}
 			}
@@ -492,7 +542,7 @@ func (m *matrix) solve() {
 				if !ok {
 					return
 				}
-				g := c.Common().StaticCallee()
+				g := calleeOf(c)
 				gf := m.facts[g]
 				if g == nil || gf == nil {
 					return
@@ -664,6 +714,60 @@ func (m *matrix) feasible(fn *ssa.Function, b *ssa.BasicBlock, u *unit) bool {
 	return s.admits(*u)
 }
 
+// calleeOf: the function a call runs - statically, or through a closure value whose construction is visible (a local closure, or
+// the result of a repo function that always returns a closure of the same function).
+func calleeOf(c ssa.CallInstruction) *ssa.Function {
+	if f := c.Common().StaticCallee(); f != nil {
+		return f
+	}
+	if c.Common().IsInvoke() {
+		return nil
+	}
+	return closureTarget(c.Common().Value, 0)
+}
+
+func closureTarget(v ssa.Value, depth int) *ssa.Function {
+	if depth > 3 {
+		return nil
+	}
+	switch x := stripIdentity(v).(type) {
+	case *ssa.MakeClosure:
+		f, _ := x.Fn.(*ssa.Function)
+		return f
+	case *ssa.Function:
+		return x
+	case *ssa.Call:
+		g := x.Call.StaticCallee()
+		if g == nil || g.Blocks == nil {
+			return nil
+		}
+		var tgt *ssa.Function
+		for _, b := range g.Blocks {
+			ret, ok := b.Instrs[len(b.Instrs)-1].(*ssa.Return)
+			if !ok || len(ret.Results) != 1 {
+				continue
+			}
+			t := closureTarget(ret.Results[0], depth+1)
+			if t == nil || (tgt != nil && tgt != t) {
+				return nil
+			}
+			tgt = t
+		}
+		return tgt
+	case *ssa.Phi:
+		var tgt *ssa.Function
+		for _, e := range x.Edges {
+			t := closureTarget(e, depth+1)
+			if t == nil || (tgt != nil && tgt != t) {
+				return nil
+			}
+			tgt = t
+		}
+		return tgt
+	}
+	return nil
+}
+
 // ---- dependence ----
 
 type depCtx struct {
@@ -672,6 +776,7 @@ type depCtx struct {
 	u          *unit
 	memo       map[ssa.Value]src
 	busy       map[ssa.Value]bool
+	lfBusy     map[*ssa.Parameter]bool
 	bindParams bool // parameters carry what the repo call sites pass in (site evaluation only, never inside helper summaries)
 	noOpaque   bool // summarise calls to emitter roots like any helper (used by the sibling-arm rules)
 }
@@ -878,7 +983,7 @@ func (c *depCtx) callDeps(call *ssa.Call) src {
 		}
 		return d
 	}
-	f := cc.StaticCallee()
+	f := calleeOf(call)
 	if f == nil {
 		for _, a := range cc.Args {
 			d |= c.deps(a)
@@ -1039,6 +1144,35 @@ func (c *depCtx) fromLengthField(v ssa.Value) bool {
 				if c.fromLengthField(e) {
 					return true
 				}
+			}
+			return false
+		case *ssa.Parameter:
+			// handed in: the length field when every call site passes it
+			fn := x.Parent()
+			sites := c.m.callers[fn]
+			if len(sites) == 0 || c.lfBusy[x] {
+				return false
+			}
+			if c.lfBusy == nil {
+				c.lfBusy = map[*ssa.Parameter]bool{}
+			}
+			c.lfBusy[x] = true
+			defer delete(c.lfBusy, x)
+			for idx, q := range fn.Params {
+				if q != x {
+					continue
+				}
+				for _, s := range sites {
+					if idx >= len(s.Common().Args) {
+						return false
+					}
+					cc := c.m.ctx(s.Parent(), nil)
+					cc.lfBusy = c.lfBusy
+					if !cc.fromLengthField(s.Common().Args[idx]) {
+						return false
+					}
+				}
+				return true
 			}
 			return false
 		default:
@@ -1220,6 +1354,12 @@ func (m *matrix) sitesOf(fn *ssa.Function) []site {
 		case ssa.CallInstruction:
 			if f := x.Common().StaticCallee(); f != nil && builderWriters[f.String()] && len(x.Common().Args) > 1 {
 				out = append(out, site{fn, ins, x.Common().Args[1]})
+			} else if g := calleeOf(x); g != nil && !m.anchors[g] && g != fn && m.emitsIntoOuterBuilder(g, 0) {
+				// a helper (or closure) that writes into a builder it was handed or captured: what it writes is emitted here, made of
+				// what it is handed and what it reads itself
+				if v, ok := ins.(ssa.Value); ok {
+					out = append(out, site{fn, ins, v})
+				}
 			} else if f != nil && fprintFuncs[f.String()] && len(x.Common().Args) > 1 {
 				for _, a := range x.Common().Args[1:] {
 					if _, isConst := a.(*ssa.Const); !isConst {
@@ -1302,6 +1442,59 @@ func (m *matrix) sitesOf(fn *ssa.Function) []site {
 		}
 	})
 	return out
+}
+
+// emitsIntoOuterBuilder: g writes text into a builder that is a parameter or a captured variable (not one of its own).
+func (m *matrix) emitsIntoOuterBuilder(g *ssa.Function, depth int) bool {
+	if m.emitOuter == nil {
+		m.emitOuter = map[*ssa.Function]int{}
+	}
+	if v, ok := m.emitOuter[g]; ok {
+		return v == 1
+	}
+	m.emitOuter[g] = 0
+	if g.Blocks == nil || depth > 3 || !m.w.isSubjectFunc(g) {
+		return false
+	}
+	res := false
+	forEachInstr(g, func(_ *ssa.BasicBlock, ins ssa.Instruction) {
+		c, ok := ins.(ssa.CallInstruction)
+		if !ok || res {
+			return
+		}
+		f := c.Common().StaticCallee()
+		if f == nil || len(c.Common().Args) == 0 {
+			return
+		}
+		if builderWriters[f.String()] || fprintFuncs[f.String()] {
+			switch root := valueRoot(c.Common().Args[0]).(type) {
+			case *ssa.Parameter, *ssa.FreeVar:
+				_ = root
+				res = true
+			}
+			return
+		}
+		if m.w.isSubjectFunc(f) && f != g && m.emitsIntoOuterBuilder(f, depth+1) {
+			// forwards its own outer builder?
+			for _, a := range c.Common().Args {
+				switch valueRoot(a).(type) {
+				case *ssa.Parameter, *ssa.FreeVar:
+					if isBuilderPtr(a.Type()) {
+						res = true
+					}
+				}
+			}
+		}
+	})
+	if res {
+		m.emitOuter[g] = 1
+	}
+	return res
+}
+
+func isBuilderPtr(t types.Type) bool {
+	s := t.String()
+	return s == "*strings.Builder" || s == "*bytes.Buffer" || s == "io.Writer"
 }
 
 // siteDeps: data and control dependence of an emission site, specialised to u.
@@ -1473,7 +1666,7 @@ func (m *matrix) resolveAnchors(r *Report) map[string]map[string][]*ssa.Function
 					if !ok {
 						return
 					}
-					if g := c.Common().StaticCallee(); g != nil {
+					if g := calleeOf(c); g != nil {
 						visit(g)
 						return
 					}
@@ -1500,7 +1693,7 @@ func (m *matrix) resolveAnchors(r *Report) map[string]map[string][]*ssa.Function
 								}
 								continue
 							}
-							if ownSet[g] && recvNamedCore(g) == ga.Recv {
+							if ownSet[g] && (recvNamedCore(g) == ga.Recv || recvNamedCore(g) == "") {
 								visit(g)
 							}
 						}
